@@ -129,6 +129,8 @@ var ifaceUniverse = []string{
 	"(if String)", "(nm 0 Stringer (if String))", "(nmm 0 T1 int String)", "(p (nmm 0 T1 int String))",
 	"(if Error String)", "(nmm 0 Both (st string) Error String)", "(nm 0 Err2 (if Error))", "(if Error)",
 	"int", "string", "(sl int)", "(nm 0 A (sl int))", "(p (nmm 0 Both (st string) Error String))",
+	// methods on the pointer only: the method set of the value type is empty, the type still declares methods
+	"(nmp 0 PK (st int) Equal)", "(p (nmp 0 PK (st int) Equal))", "(st int)", "(nmp 0 PS (sl int) Equal)",
 }
 
 func (g *t3gen) typeList(u []string) string {
